@@ -451,6 +451,19 @@ impl GraphEngine {
 
         #[cfg(luqing_studio_nervusdb_verif)]
         nervusdb_api::verif_hooks::sched("compact.after_property_sink");
+        // Node tombstones live only in the runs that are about to be dropped: persist them
+        // in the node table first (recovery before the manifest switch still replays them).
+        {
+            let mut idmap = self.idmap.lock().unwrap();
+            let mut pager = self.pager.write().unwrap();
+            for run in runs.iter() {
+                for node in run.iter_tombstoned_nodes() {
+                    idmap.apply_tombstone(&mut pager, node)?;
+                }
+            }
+            pager.sync()?;
+        }
+
         // Statistics Collection - read directly from IdMap for accuracy
         let mut stats = crate::stats::GraphStatistics::default();
         {
